@@ -53,7 +53,7 @@ EXC_PARENTS = {
     'InterruptedError': 'OSError', 'select.error': 'OSError', 'socket.timeout': 'OSError',
     'PtyProcessError': 'Exception', 'UnicodeDecodeError': 'ValueError', 'UnicodeEncodeError': 'ValueError',
     'BlockingIOError': 'OSError', 'ExceptionFSM': 'Exception', 'StopIteration': 'Exception',
-    'asyncio.TimeoutError': 'Exception', 'ZeroDivisionError': 'Exception',
+    'asyncio.TimeoutError': 'Exception', 'ZeroDivisionError': 'Exception', 'Empty': 'Exception',
 }
 IO_CLASSES = {'BytesIO': 'b', 'StringIO': 's'}
 
